@@ -155,6 +155,16 @@ CONFIG["C10"] = dict(
     trusted_base=_GEN_TRUSTED,
 )
 
+CONFIG["C11"] = dict(
+    generated=True,
+    level_text="The generator's decision logic is modelled (Model/GenSem.lean kindOf/hasPhysical, Model/GenApi.lean apiOf: the exported API the DBC implies) and kernel-checked theorems (Props/C11.lean) prove the width rule (narrowest of 8/16/32/64 holding the length), the field-type rule and the physical-accessor rule for every signal. 'Returns no error, deterministic, gofmt-canonical, compiles, vets' is decided per program by running the generator twice, go/format, go build and go vet on every sampled DBC of the class (special decision-point DBCs + stratified random ones), and the exported API extracted from the generated source is compared with apiOf of the independently compiled database.",
+    level_note="Translation validation over sampled programs for generation/compilation (no executable Lean model of gofmt or the Go compiler exists); proof for the decision logic. " + "; ".join(_GEN_TRUSTED),
+    level="proof",
+    trivial=r"^(not-in-class)$",
+    rule="one case = one DBC program: generated twice, formatted, built, vetted, API extracted",
+    trusted_base=_GEN_TRUSTED + ["the API listing is extracted from the generated source with go/ast (harness/cmd/genbuild apiOf)"],
+)
+
 PRE_PROVE = {}
 def _unicode_tie(work, impl):
     """the committed unicode tables equal what the toolchain's unicode package says now"""
